@@ -17,6 +17,8 @@ use std::time::Duration;
 pub enum Limit {
     Depth(u8),
     MoveTime(u32),
+    /// depth restriction under a fixed move time that is far away (exercises the ExactTime arms)
+    DepthUnderMoveTime { depth: u8, ms: u32 },
     Clocks { wtime: Option<u32>, btime: Option<u32>, winc: Option<u32>, binc: Option<u32>, movestogo: Option<u32>, depth: Option<u8> },
 }
 
@@ -115,6 +117,7 @@ fn time_control(limit: &Limit) -> (TimeControl, Option<u8>) {
     match limit {
         Limit::Depth(d) => (TimeControl::Infinite, Some(*d)),
         Limit::MoveTime(t) => (TimeControl::ExactTime(Duration::from_millis(*t as u64)), None),
+        Limit::DepthUnderMoveTime { depth, ms } => (TimeControl::ExactTime(Duration::from_millis(*ms as u64)), Some(*depth)),
         Limit::Clocks { wtime, btime, winc, binc, movestogo, depth } => (
             TimeControl::Clocks(Clocks {
                 white_clock: ms(wtime),
@@ -443,6 +446,86 @@ pub fn storm_theme_sized(t: &mut Tape, heavy: bool) -> Option<Pos> {
     Some(p)
 }
 
+/// A position with exactly one legal move (a forced reply), found on walks from check themes.
+pub fn forced_theme(t: &mut Tape) -> Option<Pos> {
+    for _ in 0..6 {
+        let mix = if t.pick(2) == 0 { Mix::General } else { Mix::Tactical };
+        let Some(gp) = gen::gen_root(t, mix) else { continue };
+        let mut cur = gp.pos;
+        for _ in 0..12 {
+            let legal = cur.legal_moves();
+            if legal.len() == 1 {
+                return Some(cur);
+            }
+            if legal.is_empty() {
+                break;
+            }
+            // prefer checking moves: forced replies follow checks
+            let checks: Vec<&Mv> = legal.iter().filter(|m| cur.make(m).in_check()).collect();
+            let m = if !checks.is_empty() && t.pick(4) != 0 { *checks[t.pick(checks.len())] } else { legal[t.pick(legal.len())] };
+            cur = cur.make(&m);
+        }
+    }
+    None
+}
+
+/// Fortress: kings behind completely locked pawn chains (no captures, no pawn moves), optionally
+/// pawnless with the halfmove clock two plies before the fifty-move limit: the search tree is so small
+/// that iterative deepening runs to its last iterations (depth 200+) within milliseconds.
+pub fn fortress_theme(t: &mut Tape) -> Option<Pos> {
+    let mut p = Pos::empty();
+    if t.pick(3) == 0 {
+        // pawnless, clock 98/99: every grandchild is a fifty-move draw
+        let wk = t.pick(64) as u8;
+        p.board[wk as usize] = Some(Pc::new(true, Kind::K));
+        let mut bk = t.pick(64) as u8;
+        for _ in 0..8 {
+            if (crate::refchess::file_of(bk) - crate::refchess::file_of(wk)).abs() > 1 || (crate::refchess::rank_of(bk) - crate::refchess::rank_of(wk)).abs() > 1 {
+                break;
+            }
+            bk = t.pick(64) as u8;
+        }
+        if p.board[bk as usize].is_some() {
+            return None;
+        }
+        p.board[bk as usize] = Some(Pc::new(false, Kind::K));
+        let k = [Kind::R, Kind::Q, Kind::N, Kind::B][t.pick(4)];
+        let s = t.pick(64) as u8;
+        if p.board[s as usize].is_none() {
+            p.board[s as usize] = Some(Pc::new(t.pick(2) == 0, k));
+        }
+        p.halfmove = [98u32, 99, 97][t.pick(3)];
+        p.fullmove = 120;
+        p.white_to_move = t.pick(2) == 0;
+    } else {
+        // locked chains on alternating files: white pawn on rank r, black pawn on rank r+1
+        let files: Vec<i32> = if t.pick(2) == 0 { vec![0, 2, 4, 6] } else { vec![1, 3, 5, 7] };
+        let r = 2 + t.pick(3) as i32;
+        for f in files {
+            p.board[crate::refchess::sq(f, r) as usize] = Some(Pc::new(true, Kind::P));
+            p.board[crate::refchess::sq(f, r + 1) as usize] = Some(Pc::new(false, Kind::P));
+        }
+        p.board[crate::refchess::sq(t.pick(8) as i32, 0) as usize] = Some(Pc::new(true, Kind::K));
+        p.board[crate::refchess::sq(t.pick(8) as i32, 7) as usize] = Some(Pc::new(false, Kind::K));
+        p.white_to_move = t.pick(2) == 0;
+        p.fullmove = 1 + t.pick(60) as u32;
+    }
+    let wk = p.king_sq(true)?;
+    let bk = p.king_sq(false)?;
+    let (w_in, b_in) = (p.attacked(wk, false), p.attacked(bk, true));
+    if w_in && b_in {
+        return None;
+    }
+    if w_in {
+        p.white_to_move = true;
+    }
+    if b_in {
+        p.white_to_move = false;
+    }
+    p.validate().ok()?;
+    Some(p)
+}
+
 /// A searchable (non-terminal) game: root + moves. `mate_bias`: share of mate themes out of 8.
 pub fn gen_game(t: &mut Tape, mate_bias: usize, max_plies: usize) -> Option<(String, Vec<String>, Pos, &'static str)> {
     gen_game_opts(t, mate_bias, max_plies, true)
@@ -464,6 +547,10 @@ pub fn gen_game_opts(t: &mut Tape, mate_bias: usize, max_plies: usize, allow_sto
         (storm_theme(t)?, "capture_storm")
     } else if special == 1 {
         (gen::gen_root(t, Mix::Sparse)?.pos, "sparse")
+    } else if special == 2 {
+        (forced_theme(t)?, "forced_move")
+    } else if special == 3 {
+        (fortress_theme(t)?, "fortress")
     } else if t.pick(8) < mate_bias {
         (mate_theme(t)?, "mate_theme")
     } else {
